@@ -76,20 +76,26 @@ def check_graph(ch, n, graph, spinful, exhaustive):
     symm = ch.choice(["Z2", "U1", "Z2Z2", "U1U1"] if spinful
                      else ["Z2", "U1"], "symm")
     used = sorted({s for e in edges for s in e}, key=str)
-    val = lambda tag: float(ch.choice([-3, -2, -1, 1, 2, 3, 4], tag))
+    # coefficients as Python floats or ints (also exactly 0: a bond without
+    # hopping still carries its share of the on-site terms)
+    as_int = ch.boolean("int-typed", p=0.35)
+    cast = (lambda v: int(v)) if as_int else float
+    val = lambda tag: cast(ch.choice([-3, -2, -1, 1, 2, 3, 4, 8], tag))
+    tval = lambda tag: cast(ch.choice([-3, -1, 0, 0, 1, 2, 3], tag))
     form = ch.choice(["dict", "callable", "scalar"], "form")
     if form == "scalar":
-        tv, uv, mv, vv = val("t"), val("U"), val("mu"), val("V")
+        tv, uv, mv, vv = tval("t"), val("U"), cast(ch.choice(
+            [0, 0, 1, -2, 3], "mu")), tval("V")
         tvals = {e: tv for e in edges}
         uvals = {s: uv for s in used}
         muvals = {s: mv for s in used}
         vvals = {e: vv for e in edges}
         t_arg, U_arg, mu_arg, V_arg = tv, uv, mv, vv
     else:
-        tvals = {e: val(f"t{k}") for k, e in enumerate(edges)}
-        vvals = {e: val(f"V{k}") for k, e in enumerate(edges)}
+        tvals = {e: tval(f"t{k}") for k, e in enumerate(edges)}
+        vvals = {e: tval(f"V{k}") for k, e in enumerate(edges)}
         uvals = {s: val(f"U{k}") for k, s in enumerate(used)}
-        muvals = {s: float(ch.choice([-2, 0, 1, 3], f"mu{k}"))
+        muvals = {s: cast(ch.choice([-2, 0, 0, 1, 3], f"mu{k}"))
                   for k, s in enumerate(used)}
         if form == "dict":
             t_arg = {(e if ch.boolean(f"tk{k}") else e[::-1]): v
